@@ -1,6 +1,7 @@
 package rules
 
 import (
+	"go/token"
 	"go/types"
 	"strings"
 
@@ -107,19 +108,34 @@ func (c *Ctx) ruleStepDom(rule string) {
 			continue
 		}
 		calls := c.callbackCalls(fn, "handler")
+		// the handler may be called by the worker the function ends in (`return s.runHandler(ctx, data, input.(T))`): the
+		// worker's call site then stands where the handler call stood, and the worker's parameter for its argument
+		var workerSite *ssa.Call
+		var worker *ssa.Function
+		if len(calls) == 0 {
+			if w, site := c.tailWorker(fn); w != nil {
+				if wc := c.callbackCalls(w, "handler"); len(wc) == 1 && !blockInLoop(wc[0].Block()) {
+					calls, worker, workerSite = wc, w, site
+				}
+			}
+		}
 		k0 := key(rule, spec.fn, "handler invoked exactly once per call")
 		if len(calls) != 1 {
 			c.R.Bad(rule, k0, c.M.Pos(fn.Pos()), sprintf("%d handler call sites", len(calls)), "the handler must be invoked at exactly one site, outside any loop")
 			continue
 		}
 		call := calls[0]
-		if blockInLoop(call.Block()) {
+		at := call.Block()
+		if workerSite != nil {
+			at = workerSite.Block()
+		}
+		if blockInLoop(at) || blockInLoop(call.Block()) {
 			c.R.Bad(rule, k0, c.M.InstrPos(call), "handler call inside a loop", "the handler may run more than once for one call")
 		} else {
 			c.R.Ok(rule, k0, c.M.InstrPos(call), "handler call site", "single call site, not inside a loop")
 		}
 		k1 := key(rule, spec.fn, "handler dominated by successful input validation")
-		v := c.errNilOfMethod(call.Block(), spec.check)
+		v := c.errNilOfMethod(at, spec.check)
 		dataParam := fn.Params[len(fn.Params)-1]
 		if v == nil {
 			c.R.Bad(rule, k1, c.M.InstrPos(call), "handler runs without a dominating successful "+spec.check+" of the input",
@@ -141,6 +157,13 @@ func (c *Ctx) ruleStepDom(rule string) {
 		// R-FLOW: the handler's data argument derives from the data parameter only through a type assertion
 		k2 := key(rule, spec.fn, "handler receives the validated value")
 		last := call.Call.Args[len(call.Call.Args)-1]
+		if p, isParam := last.(*ssa.Parameter); isParam && worker != nil {
+			for i, q := range worker.Params {
+				if q == p && i < len(workerSite.Call.Args) {
+					last = workerSite.Call.Args[i]
+				}
+			}
+		}
 		src := last
 		if ta, ok := last.(*ssa.TypeAssert); ok {
 			src = ta.X
@@ -215,6 +238,15 @@ func (c *Ctx) ruleStepDom(rule string) {
 					call, ok := e.(*ssa.Call)
 					if ok && c.calledMethodName(call) == "Validate" {
 						continue
+					}
+					// the error of the worker the function ends in: the worker's own returns are looked at
+					if w, site := c.tailWorker(f); w != nil && depth < 2 {
+						if ex, isEx := e.(*ssa.Extract); isEx && ex.Tuple == ssa.Value(site) {
+							if carries(w, depth+1) {
+								continue
+							}
+							return false
+						}
 					}
 					// or: a nil error returned where the declared output's Validate was found to return nil
 					passed := false
@@ -520,4 +552,42 @@ func (c *Ctx) verdictHelpersOf(f *ssa.Function) []*ssa.Function {
 		}
 	}
 	return out
+}
+
+// tailWorker: f ends by handing over to a worker on the same receiver - every way out of f that does not fail returns,
+// result for result, what one call `w(...)` of an unexported method returned (`return s.run(ctx, data, typedInput)`).
+// The worker and the call, nil if f is not of that shape.
+func (c *Ctx) tailWorker(f *ssa.Function) (*ssa.Function, *ssa.Call) {
+	ei := core.ErrorResultIndex(f.Signature)
+	if f.Signature.Recv() == nil || len(f.Params) == 0 || ei < 0 {
+		return nil, nil
+	}
+	var site *ssa.Call
+	n := 0
+	for _, r := range core.ReturnsOf(f) {
+		if c.M.RetNonNil(r, ei) {
+			continue
+		}
+		n++
+		for i, res := range r.Return.Results {
+			ex, ok := res.(*ssa.Extract)
+			if !ok || ex.Index != i {
+				return nil, nil
+			}
+			call, ok := ex.Tuple.(*ssa.Call)
+			if !ok || (site != nil && site != call) {
+				return nil, nil
+			}
+			site = call
+		}
+	}
+	if site == nil || n == 0 {
+		return nil, nil
+	}
+	w := core.StaticBody(&site.Call)
+	if w == nil || w == f || w.Signature.Recv() == nil || len(site.Call.Args) == 0 || site.Call.Args[0] != ssa.Value(f.Params[0]) ||
+		token.IsExported(w.Name()) || len(core.PlainSites(w)) != 1 {
+		return nil, nil
+	}
+	return w, site
 }
